@@ -51,8 +51,24 @@ fn go(c: &Sx) -> Option<Sx> {
                 let it = b.iter();
                 let hint = it.len();
                 let v: Vec<i32> = it.map(|x| *x).collect();
-                // ExactSizeIterator: the announced length is the number of items yielded
-                if hint != v.len() { Sx::L(vec![Sx::Z(-1), Sx::Z(-1)]) } else { Sx::list(v, |x| Sx::z(x)) }
+                // ExactSizeIterator: the announced length is the number of items yielded; and "iteration sees exactly the live
+                // items" however the iterator is driven: skip / nth-then-continue / step_by / last / count agree with the plain walk
+                let mut consistent = hint == v.len();
+                for k in 0..=v.len() + 1 {
+                    let sk: Vec<i32> = b.iter().skip(k).map(|x| *x).collect();
+                    if sk[..] != v[k.min(v.len())..] { consistent = false; }
+                    let mut it2 = b.iter();
+                    let nth = it2.nth(k).map(|x| *x);
+                    let rest: Vec<i32> = it2.map(|x| *x).collect();
+                    if nth != v.get(k).copied() || rest[..] != v[(k + 1).min(v.len())..] { consistent = false; }
+                    if k >= 1 {
+                        let st: Vec<i32> = b.iter().step_by(k).map(|x| *x).collect();
+                        let want: Vec<i32> = v.iter().step_by(k).copied().collect();
+                        if st != want { consistent = false; }
+                    }
+                }
+                if b.iter().count() != v.len() || b.iter().last().map(|x| *x) != v.last().copied() { consistent = false; }
+                if !consistent { Sx::L(vec![Sx::Z(-1), Sx::Z(-1)]) } else { Sx::list(v, |x| Sx::z(x)) }
             }
             13 => Sx::b(b.is_empty()),
             14 => Sx::b(b.is_full()),
